@@ -20,19 +20,32 @@ def run_search(rep, tier, want_explain=False, statuses=("PANIC", "BUDGET", "C03"
     quick = tier == "quick"
     plan = [("corpus", ["-n", "0"]), ("mutate", ["-n", "120000" if quick else "6000000", "-seed", str(rep.seed)]),
             ("exhaustive", ["-n", "1" if quick else "2"]), ("nest", ["-n", "20000" if quick else "1000000"]),
-            ("truncate", ["-n", "1500" if quick else "0"]), ("repeat", ["-n", "60" if quick else "3000", "-seed", str(rep.seed)])]
+            ("truncate", ["-n", "1500" if quick else "0"]), ("repeat", ["-n", "60" if quick else "3000", "-seed", str(rep.seed)]),
+            ("litsub", ["-n", "30000" if quick else "1500000", "-seed", str(rep.seed + 2)])]
     if tier == "targeted":   # an obligation broke: spend about half a minute looking for a concrete input
         plan = [("corpus", ["-n", "0"]), ("truncate", ["-n", "0"]), ("repeat", ["-n", "1500", "-seed", str(rep.seed)]),
-                ("mutate", ["-n", "3000000", "-seed", str(rep.seed)]), ("exhaustive", ["-n", "2"]), ("nest", ["-n", "20000"])]
+                ("mutate", ["-n", "3000000", "-seed", str(rep.seed)]), ("exhaustive", ["-n", "2"]), ("nest", ["-n", "20000"]),
+                ("litsub", ["-n", "400000", "-seed", str(rep.seed + 2)])]
     cases = os.path.join(verif.BUILD, "search_cases_%s.txt" % rep.pid)
     dist = {}
+    # second corpus: statements of the verification grammar (checks/gen_sql_grammar.py: valid statements with every clause
+    # combination, set operations, :: casts, tails ...), run as they are and as the base of token mutants and truncations
+    gram = os.path.join(verif.BUILD, "grammar_corpus_%s.txt" % rep.pid)
+    ng = {"quick": 3000, "targeted": 30000}.get(tier, 60000)
+    rcg, outg = verif.sh(["python3", os.path.join(verif.ROOT, "checks", "gen_sql_grammar.py"), str(rep.seed), str(ng)], timeout=1200)
+    gplan = []
+    if rcg == 0 and outg.strip():
+        open(gram, "w").write(outg)
+        gplan = [("corpus", ["-n", "0", "-corpus", gram]), ("mutate", ["-n", str(ng * 5), "-seed", str(rep.seed + 1), "-corpus", gram]),
+                 ("truncate", ["-n", str(ng // 10), "-corpus", gram]), ("litsub", ["-n", str(ng * 3), "-seed", str(rep.seed + 3), "-corpus", gram])]
     with open(cases, "w") as f:
-        for mode, extra in plan:
+        for mode, extra in plan + gplan:
             rc, out = verif.sh([PSEARCH, "gen", "-mode", mode] + extra, timeout=1200)
             if rc != 0:
                 raise RuntimeError("psearch gen %s: %s" % (mode, out[-300:]))
             f.write(out)
-            dist[mode] = out.count("\n")
+            key = mode if "-corpus" not in extra else "grammar-" + mode
+            dist[key] = out.count("\n")
     outp = cases + ".out"
     cmd = [PSEARCH, "run", "-E", str(E), "-B", str(B)] + (["-explain"] if want_explain else [])
     rc, err = verif.parallel_map_files(cmd, cases, outp, timeout=6000)
